@@ -34,6 +34,9 @@ structure St where
   expSup : Nat → Int := fun _ => 0
   pendMint : Bool := false
   pendBurn : Bool := false
+  /-- C02: what the accepted messages since the last state line add to / take off the debt registered for emergency
+  redemption (`esmVault_registers_principal`: exactly the principal of every redeemed vault; `esmBurn_burns_registered`) -/
+  expReg : Nat → Nat → Int := fun _ _ => 0
 
 def init : St := {}
 
@@ -310,6 +313,16 @@ def supplyMonitors (cfgL : List Product) (prev real : State) (exp : Nat → Int)
       let name := if mint then "mint_delivers" else if got > exp d ∨ ¬ burn then "interest_not_minted" else "burn_exact"
       some s!"{name}\tsupply of denom {d} moved by {got}, the accepted messages account for {exp d}"
 
+/-- C02, "debt registered for emergency redemption": on the REAL chain the register of every (app, debt asset) moved, since the
+last state line, by exactly what the accepted redemption steps account for — the principal of every vault swept into the pool,
+minus what the collector and the holders burnt against it. A sweep that drops or double-counts a vault's principal leaves
+supply that neither a vault record nor the register backs. -/
+def registerMonitors (prev : State) (p : List (Nat × Nat × Int)) (exp : Nat → Nat → Int) : List String :=
+  p.filterMap fun (a, d, x) =>
+    let got := x - prev.redeem a d
+    if got = exp a d then none else
+      some s!"supply_eq_principal\tdebt registered for emergency redemption, app {a} denom {d}: moved by {got}, the redeemed vaults / burns account for {exp a d} (supply no longer backed by principal + register)"
+
 def replaceProduct (l : List Product) (p : Product) : List Product :=
   if l.any (·.id = p.id) then l.map (fun q => if q.id = p.id then p else q) else l ++ [p]
 
@@ -343,7 +356,9 @@ def handle (st : St) (seq : String) (f : List String) : St × List String :=
         let isBurn := match m with
           | .repay .. | .close .. | .stableWithdraw .. | .settle .. | .settle1 .. | .esmReturn1 .. | .esmReturn2 .. | .esmCollector .. | .esmBurn .. => true
           | _ => false
+        let oldReg := st.expReg
         if outcome = "ok" then ({ st' with s := s', expSup := fun d => old d + supplyDelta cfg0 s0 e m d,
+                                           expReg := fun a d => oldReg a d + (s'.redeem a d - s0.redeem a d),
                                            pendMint := st.pendMint || (m.mints && !(match m with | .fund .. => true | _ => false)),
                                            pendBurn := st.pendBurn || isBurn }, [])
         -- the model accepts what the code rejects: keep the real (unchanged) state
@@ -386,12 +401,15 @@ def handle (st : St) (seq : String) (f : List String) : St × List String :=
       let supMons := match st.prev with
         | some pv => supplyMonitors st.cfgL pv r st.expSup st.pendMint st.pendBurn
         | none => []
-      let mons := (monitors st.cfgL st.prevGaps r lenientSupply ++ limitMonitors st.cfgL st.floorExempt st.prev r ++ perMsg ++ supMons).map fun m => s!"MON\t{seq}\t{m}\tafter [{st.lastMsg}]"
+      let regMons := match st.prev with
+        | some pv => registerMonitors pv p.rd st.expReg
+        | none => []
+      let mons := (monitors st.cfgL st.prevGaps r lenientSupply ++ limitMonitors st.cfgL st.floorExempt st.prev r ++ perMsg ++ supMons ++ regMons).map fun m => s!"MON\t{seq}\t{m}\tafter [{st.lastMsg}]"
       -- resynchronise on the real state so that later divergences are independent
       let old := m0
       let resync : State := { r with bal := overlay p.bal old.bal }
       ({ st with s := if diffs.isEmpty then old else resync, prev := some r, lastOk := none,
-                 prevGaps := (gaps st.cfgL r), expSup := fun _ => 0, pendMint := false, pendBurn := false }, diffs ++ mons)
+                 prevGaps := (gaps st.cfgL r), expSup := fun _ => 0, pendMint := false, pendBurn := false, expReg := fun _ _ => 0 }, diffs ++ mons)
   | _ => (st, [s!"BAD\t{seq}\tunknown vault line"])
 
 end Comdex.Drv.Vault
